@@ -25,6 +25,7 @@ func init() {
 			"setupExec hands SetStdout a writer that includes the log writer (and the stdout: file when configured) and SetStderr the stderr: writer when configured, else one that includes the log writer (C12.wiring)",
 			"for every Executor implementation SetStderr does not overwrite the sink SetStdout installed (C12.executor-siblings) — violated today by docker, http, ssh: known finding F11",
 			"after handing the node back for a retry the old worker does not touch it again (C12.handback-last) — violated today: known finding F25",
+			"every store into a *bufio.Writer field of the node installs the result of bufio.NewWriter (or nil): no two sinks share one buffered writer (C12.writer-per-sink)",
 		},
 		NotDec: []string{"buffer-size boundaries; bufio / os/exec copy semantics (ReadFrom bypass); disk errors", "the interleaving under which F25 actually loses bytes"},
 	})
@@ -39,6 +40,7 @@ func runC12(e *Env) {
 	}
 	c12Coverage(e, s)
 	c12FlushIndependent(e)
+	c12WriterPerSink(e, "C12.writer-per-sink")
 	c12Rearm(e, s)
 	c12AlwaysTeardown(e, s)
 	c12Wiring(e, s)
